@@ -767,6 +767,8 @@ where
     ///
     /// Safe to call concurrently with other `insert`/`remove`/`search` calls.
     pub fn insert(&self, id: u64, text: &str, now_ms: u64) -> Result<(), BM25Error> {
+        #[cfg(feature = "verif")]
+        anda_db_utils::verif::point("bm25.insert.gate");
         // Shared with other mutations, exclusive against `compact_buckets`.
         let _mutation_guard = self.mutation_gate.read();
 
@@ -810,6 +812,8 @@ where
 
                 // Update inverted index
                 for (token, freq) in token_freqs {
+                    #[cfg(feature = "verif")]
+                    anda_db_utils::verif::point("bm25.insert.posting");
                     match self.postings.entry(token.clone()) {
                         dashmap::Entry::Occupied(mut entry) => {
                             let val = (id, freq);
@@ -845,6 +849,8 @@ where
         // tokens_to_migrate: (old_bucket_id, token, size)
         let mut tokens_to_migrate: Vec<(u32, String, usize)> = Vec::new();
         for (bid, val) in buckets_to_update {
+            #[cfg(feature = "verif")]
+            anda_db_utils::verif::point("bm25.insert.bucket");
             let mut bucket = self.buckets.entry(bid).or_default();
             // Mark as dirty, needs to be persisted
             bucket.mark_dirty();
@@ -871,9 +877,13 @@ where
 
         // Phase 3: Create new buckets if needed
         if !tokens_to_migrate.is_empty() {
+            #[cfg(feature = "verif")]
+            anda_db_utils::verif::point("bm25.insert.migrate");
             let mut next_bucket_id = self.max_bucket_id.fetch_add(1, Ordering::Release) + 1;
 
             for (old_bucket_id, token, size) in tokens_to_migrate {
+                #[cfg(feature = "verif")]
+                anda_db_utils::verif::point("bm25.insert.migrate-token");
                 if let Some(mut posting) = self.postings.get_mut(&token) {
                     posting.0 = next_bucket_id;
                 }
@@ -885,6 +895,8 @@ where
                     ob.mark_dirty();
                 }
 
+                #[cfg(feature = "verif")]
+                anda_db_utils::verif::point("bm25.insert.migrate-place");
                 let mut next_new_bucket = false;
                 {
                     let mut nb = self.buckets.entry(next_bucket_id).or_default();
@@ -916,6 +928,8 @@ where
             }
         }
 
+        #[cfg(feature = "verif")]
+        anda_db_utils::verif::point("bm25.insert.meta");
         self.update_metadata(|m| {
             m.stats.version += 1;
             m.stats.last_inserted = now_ms;
@@ -949,6 +963,8 @@ where
     /// * `true` if a document with the given id was found and removed.
     /// * `false` otherwise.
     pub fn remove(&self, id: u64, text: &str, now_ms: u64) -> bool {
+        #[cfg(feature = "verif")]
+        anda_db_utils::verif::point("bm25.remove.gate");
         // Shared with other mutations, exclusive against `compact_buckets`.
         let _mutation_guard = self.mutation_gate.read();
 
@@ -978,6 +994,8 @@ where
         // Remove from inverted index
         let mut maybe_empty_tokens: Vec<String> = Vec::new();
         for (token, _) in token_freqs {
+            #[cfg(feature = "verif")]
+            anda_db_utils::verif::point("bm25.remove.posting");
             if let Some(mut posting) = self.postings.get_mut(&token) {
                 // Remove every entry for this document. Duplicates can exist
                 // when a previous remove() was given non-original text and the
@@ -1010,6 +1028,8 @@ where
         let mut removed_postings: FxHashSet<String> =
             FxHashSet::with_capacity_and_hasher(maybe_empty_tokens.len(), FxBuildHasher);
         for token in maybe_empty_tokens {
+            #[cfg(feature = "verif")]
+            anda_db_utils::verif::point("bm25.remove.drop-empty");
             if self
                 .postings
                 .remove_if(&token, |_, posting| posting.1.is_empty())
@@ -1020,6 +1040,8 @@ where
         }
 
         for (bucket_id, val) in buckets_to_update {
+            #[cfg(feature = "verif")]
+            anda_db_utils::verif::point("bm25.remove.bucket");
             if let Some(mut b) = self.buckets.get_mut(&bucket_id) {
                 // Mark as dirty, needs to be persisted
                 b.mark_dirty();
@@ -1049,6 +1071,8 @@ where
         // doc_tokens (e.g. stale postings left by a remove() with non-original
         // text); mark them dirty so the next flush drops the reference.
         // Read-scan first to avoid write-locking every shard on each remove.
+        #[cfg(feature = "verif")]
+        anda_db_utils::verif::point("bm25.remove.stale");
         let stale_buckets: Vec<u32> = self
             .buckets
             .iter()
@@ -1056,6 +1080,8 @@ where
             .map(|bucket| *bucket.key())
             .collect();
         for bucket_id in stale_buckets {
+            #[cfg(feature = "verif")]
+            anda_db_utils::verif::point("bm25.remove.stale-bucket");
             if let Some(mut bucket) = self.buckets.get_mut(&bucket_id)
                 && bucket.doc_ids.remove(&id)
             {
@@ -1063,6 +1089,8 @@ where
             }
         }
 
+        #[cfg(feature = "verif")]
+        anda_db_utils::verif::point("bm25.remove.meta");
         if was_present {
             self.update_metadata(|m| {
                 m.stats.version += 1;
@@ -1134,6 +1162,8 @@ where
             return 0;
         }
 
+        #[cfg(feature = "verif")]
+        anda_db_utils::verif::point("bm25.purge.gate");
         // Shared with other mutations, exclusive against `compact_buckets`.
         let _mutation_guard = self.mutation_gate.read();
 
@@ -1142,6 +1172,8 @@ where
         let mut removed_docs = 0usize;
         let mut removed_tokens = 0u64;
         for id in ids {
+            #[cfg(feature = "verif")]
+            anda_db_utils::verif::point("bm25.purge.doc");
             if let Some((_, tokens)) = self.doc_tokens.remove(id) {
                 removed_docs += 1;
                 removed_tokens += tokens as u64;
@@ -1155,6 +1187,8 @@ where
         // Phase 2: sweep every posting list once, collecting bucket updates
         // instead of applying them, so no `postings` shard guard is held while
         // the `buckets` map is touched.
+        #[cfg(feature = "verif")]
+        anda_db_utils::verif::point("bm25.purge.sweep");
         let mut bucket_size_decrease: FxHashMap<u32, usize> = FxHashMap::default();
         let mut emptied_tokens: Vec<(u32, String)> = Vec::new();
         for mut posting in self.postings.iter_mut() {
@@ -1194,6 +1228,8 @@ where
         let mut removed_postings: FxHashSet<String> =
             FxHashSet::with_capacity_and_hasher(emptied_tokens.len(), FxBuildHasher);
         for (_, token) in emptied_tokens.iter() {
+            #[cfg(feature = "verif")]
+            anda_db_utils::verif::point("bm25.purge.drop-empty");
             if self
                 .postings
                 .remove_if(token, |_, posting| posting.1.is_empty())
@@ -1206,6 +1242,8 @@ where
         // Phase 4: resize and dirty every bucket that owned an affected token.
         let mut purged_postings = !bucket_size_decrease.is_empty();
         for (bucket_id, size_decrease) in bucket_size_decrease {
+            #[cfg(feature = "verif")]
+            anda_db_utils::verif::point("bm25.purge.bucket");
             if let Some(mut bucket) = self.buckets.get_mut(&bucket_id) {
                 bucket.mark_dirty();
                 bucket.size = bucket.size.saturating_sub(size_decrease);
@@ -1218,6 +1256,8 @@ where
         // token when no bucket claims it or a different one does, otherwise no
         // bucket would list it and `serialize_bucket` would lose the term.
         for (bucket_id, token) in emptied_tokens {
+            #[cfg(feature = "verif")]
+            anda_db_utils::verif::point("bm25.purge.unlist");
             if !removed_postings.contains(&token) {
                 continue;
             }
@@ -1236,6 +1276,8 @@ where
         // first so a purge that touches nothing does not write-lock every
         // shard; probe by `ids` (the dead set is small) rather than by
         // `doc_ids` (which can hold the whole collection).
+        #[cfg(feature = "verif")]
+        anda_db_utils::verif::point("bm25.purge.stale");
         let stale_buckets: Vec<u32> = self
             .buckets
             .iter()
@@ -1244,6 +1286,8 @@ where
             .collect();
         purged_postings |= !stale_buckets.is_empty();
         for bucket_id in stale_buckets {
+            #[cfg(feature = "verif")]
+            anda_db_utils::verif::point("bm25.purge.stale-bucket");
             if let Some(mut bucket) = self.buckets.get_mut(&bucket_id) {
                 let before = bucket.doc_ids.len();
                 bucket.doc_ids.retain(|id| !ids.contains(id));
@@ -1253,6 +1297,8 @@ where
             }
         }
 
+        #[cfg(feature = "verif")]
+        anda_db_utils::verif::point("bm25.purge.meta");
         if removed_docs > 0 || purged_postings {
             self.update_metadata(|m| {
                 m.stats.version += 1;
@@ -1853,6 +1899,8 @@ where
     ///
     /// `(old_bucket_count, new_bucket_count)`.
     pub fn compact_buckets(&self) -> (usize, usize) {
+        #[cfg(feature = "verif")]
+        anda_db_utils::verif::point("bm25.compact.gate");
         // Exclusive: no mutation may observe — or add to — the half-rebuilt
         // bucket map. Every mutator takes the shared side of this gate before
         // touching any other lock, so the ordering is uniform and deadlock-free.
@@ -1931,12 +1979,16 @@ where
             }
         }
 
+        #[cfg(feature = "verif")]
+        anda_db_utils::verif::point("bm25.compact.rebuild");
         // Step 4: Rebuild buckets.
         self.buckets.clear();
         let new_count = bins.len();
         let max_id = new_count.saturating_sub(1) as u32;
 
         for (i, (size, tokens)) in bins.into_iter().enumerate() {
+            #[cfg(feature = "verif")]
+            anda_db_utils::verif::point("bm25.compact.bucket");
             let bucket_id = i as u32;
 
             // Update posting references and collect doc_ids.
